@@ -88,7 +88,7 @@ class C07(vlib.HistoryProp):
     def assumptions(self):
         return ["the harness prints an unresolved waitthread result as r=ptr (the model can express it as well): since f3056f7 none is ever observed",
                 "injected integral millisecond clock (hook H1), constant during an Execute; time scale 1 (the two time bases of the timer coincide: C06)",
-                "threads are straight-line programs of println / wait / waittill / waittill_any / notify / endon / delete / spawn / thread / waitthread / end; event names a, b, c (never \"delete\"/\"remove\", which the Listener destructor notifies)",
+                "threads are straight-line programs of println / wait / waittill / waittill_any / waittill_timeout / waittill_any_timeout / notify / endon / delete / spawn / thread / waitthread / end; event names a, b, c (never \"delete\"/\"remove\", which the Listener destructor notifies)",
                 "script objects are plain Listeners held in level.o0..o2; a thread numbers itself from the counter level.ntid when it starts",
                 "the order in which con::set enumerates the NAMES of one listener (UnregisterAll, CancelWaitingAll) is modelled as c, b, a, \"\"; it is observable only through the resume order of the waitthread callers of waiters destroyed by ONE delete under DIFFERENT names: such programs are generated only with C07_DEFECTS=order"]
 
@@ -125,13 +125,19 @@ class C07(vlib.HistoryProp):
             o = rng.randrange(c.nobj)
             if k == 0:
                 n = rng.choice(NAMES) if (c.order_ok or not callee) else "a"
-                p += [c.mark(), "t%d%s" % (o, n), c.mark()]
+                if rng.random() < 0.3:
+                    p += [c.mark(), "u%d%d%s" % (o, rng.choice([0, 1, 2, 3, 5]), n), c.mark()]
+                else:
+                    p += [c.mark(), "t%d%s" % (o, n), c.mark()]
             elif k == 1:
                 if callee and not c.order_ok:
                     ns = "a" * rng.choice([1, 2])
                 else:
                     ns = "".join(rng.choice(NAMES) for _ in range(rng.choice([1, 2, 2, 3])))
-                p += [c.mark(), "y%d%s" % (o, ns), c.mark()]
+                if rng.random() < 0.3:
+                    p += [c.mark(), "v%d%d%s" % (o, rng.choice([0, 1, 2, 3, 5]), ns), c.mark()]
+                else:
+                    p += [c.mark(), "y%d%s" % (o, ns), c.mark()]
             elif k == 2:
                 p += ["n%d%s" % (o, rng.choice(NAMES)), c.mark()]
             elif k == 3:
@@ -262,6 +268,35 @@ class C07(vlib.HistoryProp):
                 cases.append(Case("v%d" % k, "", ["S " + " ".join(prog), "S n0a p60 n0b p61 n0c p62 n1a p63", "X"], "waittill-names"))
                 k += 1
 
+    REBLOCK = ["t0b", "y0bc", "u04b", "u01b", "v03bc", "wt[ w6 p90 end3 ] r", "w6", "t1a"]
+
+    def timeouts(self, tier, cases):
+        """waittill_timeout / waittill_any_timeout: the notify before / at / after the deadline; the
+        thread blocks again (waittill, waittill_any, a timed waittill, waitthread, wait) and the old
+        deadline passes during that second wait; a second timed waiter; endon / delete / kill while a
+        timeout is pending; then the second wait is satisfied"""
+        k = len(cases)
+        firsts = ["u0%da", "v0%dac"]
+        extras = ["", "th[ p40 u02a p41 ]", "th[ e0c p40 u03b p41 ]", "th[ p40 wt[ p42 u02c p43 end6 ] p41 r ]"]
+        events = ["", "S n0c p60", "S d0 p61"]
+        ds = (1, 3) if tier == "quick" else (0, 1, 2, 3)
+        for first in firsts:
+            for d in ds:
+                for rb in self.REBLOCK:
+                    for nt in ((0, 1, 3, 5) if tier == "quick" else (0, 1, 2, 3, 4, 5)):
+                        for ex in (extras[:2] if tier == "quick" and rb not in ("t0b", "w6") else extras):
+                            for ev in (events[:1] if tier == "quick" and ex else events):
+                                ops = ["S s0 s1 th[ p1 " + (first % d) + " p2 " + rb + " p3 ] " + ex + " p5"]
+                                for t in range(0, 9):
+                                    if t == nt:
+                                        ops.append("S n0a p20")
+                                    if t == 2 and ev:
+                                        ops.append(ev)
+                                    ops += ["T 1", "X"]
+                                ops += ["S n0b p21 n1a p22", "T 9", "X", "X"]
+                                cases.append(Case("t%d" % k, "", ops, "timeouts"))
+                                k += 1
+
     def endon_random(self, rng, cases, n):
         k = len(cases)
         for _ in range(n):
@@ -325,6 +360,7 @@ class C07(vlib.HistoryProp):
         self.exhaustive(tier, cases)
         self.endon_names(tier, cases)
         self.waittill_names(tier, cases)
+        self.timeouts(tier, cases)
         self.endon_random(rng, cases, 600 if tier == "quick" else 20000)
         self.finding_templates(rng, cases, 40 if tier == "quick" else 400)
         k = len(cases)
@@ -364,7 +400,9 @@ def check(res, tier, seed):
     res.cov["rule"] += ("C07: corpus; every program `spawn o0; thread A; [thread B;] M` with A, B, M sequences over "
                         "{waittill a, notify a, delete, endon a, wait 1, waittill_any a b, notify b} (thorough: + waittill b, spawn, wait 0, endon b; longer) "
                         "x two frame schedules; the endon family: 2-3 threads holding endon registrations under DIFFERENT names (a, b, c; two names in one thread; endon + waittill of one name; "
-                        "a second object) x every order of 2-3 notifies, the same for waittill under different names, and random endon/notify mixes; templates aimed at the recorded finding and at waitthread callees that are killed (regression family of the fixed f3056f7); seeded random histories of 1-4 host-started threads, up to 6 script threads, "
+                        "a second object) x every order of 2-3 notifies, the same for waittill under different names, and random endon/notify mixes; the timeout family: waittill_timeout / waittill_any_timeout "
+                        "with the notify before/at/after the deadline, the thread blocking again in waittill / waittill_any / a timed waittill / waitthread / wait while the old "
+                        "deadline passes, a second timed waiter, endon / delete while a timeout is pending; timed waittills also in the random programs (30% of the waittills); templates aimed at the recorded finding and at waitthread callees that are killed (regression family of the fixed f3056f7); seeded random histories of 1-4 host-started threads, up to 6 script threads, "
                         "2-3 objects, names a/b/c, nested thread/waitthread bodies to depth 3, waits {0,1,1,2,3} ms, frames with and "
                         "without clock advance; markers around every blocking instruction; every candidate is first run on model and specification: "
                         "histories on which model and specification differ by a recorded finding get the origin finding-<signature>; non-trivial = one host operation made >= 2 threads print. ")
